@@ -359,6 +359,7 @@ fn flat_opts(p: &Packet) -> Vec<(u16, Vec<u8>)> {
 // ------------------------------------------------------------------ case runners
 
 pub fn case_enc(cx: &mut Ctx, spec: &PktSpec, lim: Option<Option<usize>>) {
+    case_trace(cx, spec, lim);
     // lim: None = to_bytes (default), Some(None) = unlimited, Some(Some(n)) = with_limit
     let limtok = match lim {
         None => "default".to_string(),
@@ -435,6 +436,49 @@ pub fn case_enc(cx: &mut Ctx, spec: &PktSpec, lim: Option<Option<usize>>) {
                     cx.stat("limit_plus_1");
                 }
             }
+        }
+    }
+}
+
+/// the serialiser's reserve/copy events (hook); oracle (C04): every copy within the real capacity
+pub fn case_trace(cx: &mut Ctx, spec: &PktSpec, lim: Option<Option<usize>>) {
+    use coap_lite::verif::{take_copy_trace, CopyEvent};
+    let limtok = match lim {
+        None => "default".to_string(),
+        Some(None) => "none".to_string(),
+        Some(Some(n)) => n.to_string(),
+    };
+    let line = format!("PKT trace {} {}", limtok, spec.line());
+    let r = guarded(|| {
+        let p = spec.build();
+        let _ = take_copy_trace();
+        let _ = match lim {
+            None => p.to_bytes(),
+            Some(None) => p.to_bytes_unlimited(),
+            Some(Some(n)) => p.to_bytes_with_limit(n),
+        };
+        take_copy_trace()
+    });
+    match r {
+        None => cx.case(&line, "panic"),
+        Some(evs) => {
+            let mut toks = vec![];
+            for e in &evs {
+                match e {
+                    CopyEvent::Reserve { len, additional } => toks.push(format!("R{}+{}", len, additional)),
+                    CopyEvent::Copy { capacity, offset, count } => {
+                        toks.push(format!("C{}+{}", offset, count));
+                        if offset + count > *capacity {
+                            cx.oracle_fail("C04", &line, &format!("raw-pointer copy of {} bytes to offset {} exceeds the vector's capacity {}", count, offset, capacity));
+                        }
+                    }
+                }
+            }
+            cx.case(&line, &toks.join(" "));
+            if !evs.is_empty() {
+                cx.nontrivial(&line);
+            }
+            cx.stat_n("copy_events", evs.len() as u64);
         }
     }
 }
